@@ -50,9 +50,18 @@ def _checkout_script(name, salt, weak=()):
             "i=0; for a in \"$@\"; do echo \"arg$((i++)):\" >> src-out.txt; __dump \"$a\" >> src-out.txt; done\n"
             ).format(fn=DUMP_FN, vf=_vars_fn(weak), n=name, s=salt)
 
+LIBS_FN = ("__libs() {\n    local r=${PWD%/dev/build/*} x; r=${r%/dev/dist/*}; r=${r%/dev/src/*}\n"
+           "    [[ $r == \"$PWD\" ]] && r=${PWD%/work/*}\n"
+           "    x=${LD_LIBRARY_PATH//\"$r\"/ROOT}\n"
+           "    shopt -s extglob; x=${x//\\/+([0-9])\\/workspace//N/workspace}; shopt -u extglob\n"
+           "    echo \"libs: $x\"\n}\n")
+
 def _build_script(name, salt, tools, weak=()):
     t = "".join('echo "tool {t}:" >> b-{s}.txt; __dump "${{BOB_TOOL_PATHS[{t}]}}" >> b-{s}.txt\n'.format(t=t, s=salt)
                 for t in tools)
+    if tools:
+        # what the library search path of the used tools looks like (project root normalised)
+        t = LIBS_FN + t + "__libs >> b-{s}.txt\n".format(s=salt)
     return ("{fn}{vf}echo \"build {n} salt={s}\" > b-{s}.txt\n__vars >> b-{s}.txt\n"
             "i=0; for a in \"$@\"; do echo \"arg$((i++)):\" >> b-{s}.txt; __dump \"$a\" >> b-{s}.txt; done\n{t}"
             ).format(fn=DUMP_FN, vf=_vars_fn(weak), n=name, s=salt, t=t)
@@ -60,6 +69,8 @@ def _build_script(name, salt, tools, weak=()):
 def _package_script(name, salt, tools, weak=()):
     t = "".join('echo "tool {t}:" >> p-{s}.txt; __dump "${{BOB_TOOL_PATHS[{t}]}}" >> p-{s}.txt\n'.format(t=t, s=salt)
                 for t in tools)
+    if tools:
+        t = LIBS_FN + t + "__libs >> p-{s}.txt\n".format(s=salt)
     return ("{fn}{vf}echo \"package {n} salt={s}\" > p-{s}.txt\n__vars >> p-{s}.txt\n"
             "i=0; for a in \"$@\"; do echo \"arg$((i++)):\" >> p-{s}.txt; __dump \"$a\" >> p-{s}.txt; done\n{t}"
             "echo tool-of-{n}-{s} > toolfile.txt\n"
@@ -450,7 +461,7 @@ def materialise(model, root, clock=None, prev=None, extra_config=None):
 
 EDIT_KINDS = ["salt", "var_value", "var_list", "default_env", "dep_add", "dep_remove", "dep_env",
               "provide_var", "src_modify", "src_add", "src_delete", "tool_libs", "class_salt", "revert",
-              "use_toggle", "dep_reorder", "inc_modify", "inc_add"]
+              "use_toggle", "dep_reorder", "inc_modify", "inc_add", "tool_path"]
 
 CONTENT_EDITS = ["src_modify", "src_modify", "src_add", "src_delete"]
 
@@ -516,6 +527,10 @@ def gen_edit(rng, model, history, kinds=None, value_pool=None):
             return {"kind": "src_add", "path": "src/%s/n%d.txt" % (r_name, rng.randrange(5)), "content": "new-%x\n" % rng.getrandbits(24)}
         if kind == "src_delete" and len(srcs) > 1:
             return {"kind": "src_delete", "path": rng.choice(srcs)}
+        if kind == "tool_path" and r["provideTools"]:
+            t = rng.choice(sorted(r["provideTools"]))
+            return {"kind": "tool_path", "recipe": r_name, "tool": t,
+                    "path": "sub" if r["provideTools"][t]["path"] == "." else "."}
         if kind == "tool_libs" and r["provideTools"]:
             t = sorted(r["provideTools"])[0]
             return {"kind": "tool_libs", "recipe": r_name, "tool": t, "libs": rng.choice([[], ["."], ["lib"]])}
@@ -648,6 +663,10 @@ def apply_edit(model, edit, history):
                     e["use"].append(edit["what"])
         elif k == "dep_reorder":
             r["depends"] = r["depends"][1:] + r["depends"][:1]
+        elif k == "tool_path":
+            r = m["recipes"][edit["recipe"]]
+            if edit["tool"] in r["provideTools"]:
+                r["provideTools"][edit["tool"]]["path"] = edit["path"]
         elif k == "tool_libs":
             if edit["tool"] in r["provideTools"]:
                 r["provideTools"][edit["tool"]]["libs"] = list(edit["libs"])
